@@ -12,7 +12,8 @@ ASSUMPTIONS = [
     "send_sd is observed as a call (its encoding and session handling are C02/C08); bursts whose shared option array exceeds 255 options make send_sd fail inside the timer callback -- outside the property's quantifier",
     "history claim (every queued entry is in exactly one collector, collectors are per destination) as one step from an arbitrary queue state; induction over the history is the trusted rule",
 ]
-BOUNDED = ["send queues: for the destination of interest none / open (0..1 earlier entries) / expired collector, plus an open collector for one other destination; the number of earlier entries in a collector is bounded to 0..1"]
-EXPLANATION = "destinations, entries, the collection timeout and the clock are symbolic; the number of entries already waiting in a collector is bounded in shape (bounded_stand_ins)"
+BOUNDED = []
+LEVEL = "proof"
+EXPLANATION = "destinations, entries, the collection timeout and the clock are symbolic; an open collector holds arbitrarily many earlier entries (list with symbolic prefix); the queue table is examined for the destination of interest and one arbitrary other destination"
 HARNESSES = SA.SEND_QUEUE_OBLIGATIONS
 EXPECT_COVERS = {"ob_queue_send": ["immediate", "joined", "created", "other-destination"]}
